@@ -687,6 +687,9 @@ def build_scenario(kind, v):
         if kind == "iter":
             import e2_metric
             return e2_metric.iter_scenario(v)
+        if kind == "dot_preprocess":
+            import e2_dot
+            return e2_dot.scenario(v)
         if kind == "query_entry":
             import e2_query
             return e2_query.query_scenario(v)
